@@ -1,20 +1,188 @@
 (* C10 — Pipeline steps run only after everything they depend on succeeded.
-   Property theorems only (proofs are in Sched/Proofs.v). *)
+   Property theorems only: statement, [exact] of a lemma of Sched/Proofs.v, [Check] pins, Examples
+   (non-vacuity, refutation witnesses by vm_compute), [Print Assumptions].
+
+   Reading guide.  [run cfg sch] is the model of `xvc pipeline run` for the pipeline / command
+   behaviour [cfg] under the thread schedule [sch] (ANY list of thread ids; ids that are not enabled
+   are skipped): [Rejected] before any thread starts, or [Accepted s] with the state reached.
+   [deps_of cfg sc] are the neighbours of step [sc] in the dependency graph the code builds
+   (explicit step dependencies + dependencies_to_path); [edges cfg] is that graph.
+   [started (proc t)]: the step's command has been started (it may have ended since). *)
 From Coq Require Import List Bool NArith Lia.
 From XV Require Import Base.Amap Gen.StepMachine Sched.Model Sched.Proofs.
 Import ListNotations.
 Local Open Scope N_scope.
 
+(* 1. (core) In every reachable state of every schedule: if the command of step i has been started,
+      then every step j it depends on in the graph has a verdict, its command is not running, and
+      the verdict is "done" (executed successfully or up to date) -- or i is marked `always` and j
+      merely has finished.  Holds for every setting of the repair switches. *)
+Theorem started_after_dependencies cfg sch s i j sc ti :
+  run cfg sch = Accepted s ->
+  find_step (c_steps cfg) i = Some sc -> In j (deps_of cfg sc) ->
+  tget (thr s) i = Some ti -> started (proc ti) = true ->
+  exists tj, tget (thr s) j = Some tj /\ is_running (proc tj) = false /\
+             (is_done (loc tj) = true \/ (s_when sc = Always /\ is_terminal (loc tj) = true)).
+Proof. exact (started_after_dependencies_lemma cfg sch s i j sc ti). Qed.
+
+(* ... and a verdict never changes afterwards (so the dependency HAD finished when i started) *)
+Theorem verdicts_are_final cfg sch s k sch' :
+  run cfg sch = Accepted s -> is_terminal (loc_of s k) = true ->
+  loc_of (run_sched cfg s sch') k = loc_of s k.
+Proof. exact (verdicts_are_final_lemma cfg sch s k sch'). Qed.
+
+(* 2. A step downstream of a broken step is never executed unless it is marked `always`:
+      in every continuation of the run its process stays NotStarted. *)
+Theorem downstream_of_failed_never_starts cfg sch s i j sc :
+  run cfg sch = Accepted s ->
+  find_step (c_steps cfg) i = Some sc -> In j (deps_of cfg sc) ->
+  is_broken (loc_of s j) = true -> s_when sc <> Always ->
+  forall sch' ti, tget (thr (run_sched cfg s sch')) i = Some ti -> proc ti = NotStarted.
+Proof. exact (downstream_of_failed_never_starts_lemma cfg sch s i j sc). Qed.
+
+(* 3. Cyclic graphs are rejected before any thread exists; an accepted graph has no cycle. *)
 Theorem cyclic_rejected cfg sch :
   acyclicb cfg = false -> exists r, run cfg sch = Rejected r.
 Proof. exact (cyclic_rejected_lemma cfg sch). Qed.
 
+Theorem accepted_no_cycle cfg sch s :
+  run cfg sch = Accepted s -> forall i, ~ path (edges cfg) i i.
+Proof. intros H. exact (accepted_no_cycle_lemma cfg (run_accepted_acyclic cfg sch s H)). Qed.
+
+(* 4. The graph covers the declared reads: explicit step dependencies, and every file-like
+      dependency (file, regex, param, lines, sqlite: one path) on a declared output. *)
+Theorem explicit_dependencies_are_edges cfg r j :
+  In r (c_steps cfg) -> In (DStep j) (s_deps r) -> In (s_id r, j) (edges cfg).
+Proof. exact (explicit_edge cfg r j). Qed.
+
+Theorem edges_cover_declared_reads cfg r p d o :
+  In r (c_steps cfg) -> In p (c_steps cfg) -> In d (s_deps r) -> In o (s_outs p) ->
+  file_like d = true -> sem_reads d o = true -> In (s_id r, s_id p) (edges cfg).
+Proof. exact (edges_cover_declared_reads_lemma cfg r p d o). Qed.
+
+(* The full statement of C10 over the SEMANTIC reading relation (a glob reads every declared output
+   it matches, whether or not the file exists yet). *)
+Definition C10_body (cfg : config) : Prop :=
+  forall sch s r p d o tr,
+  run cfg sch = Accepted s ->
+  In r (c_steps cfg) -> In p (c_steps cfg) -> In d (s_deps r) -> In o (s_outs p) -> sem_reads d o = true ->
+  tget (thr s) (s_id r) = Some tr -> started (proc tr) = true ->
+  exists tp, tget (thr s) (s_id p) = Some tp /\ is_running (proc tp) = false /\
+             (is_done (loc tp) = true \/ (s_when r = Always /\ is_terminal (loc tp) = true)).
+Definition C10_full : Prop := forall cfg, C10_body cfg.
+
+(* proved: outside the boolean class Known_glob_on_absent_output (open finding P16) *)
+Theorem C10_outside_known_class cfg : Known_glob_on_absent_output cfg = false -> C10_body cfg.
+Proof. intros Hk sch s r p d o tr. exact (C10_semantic_lemma cfg sch s r p d o tr Hk). Qed.
+
+(* the regenerated table: every transition of the handler model is one the state_machine! macro allows *)
 Theorem handler_within_table cfg s sc t :
   match handler cfg s sc t with
-  | HNext l _ => exists e, snd l = Some e /\ allowed (fst (loc t)) e = Some (fst l)
+  | HNext l _ _ => exists e, snd l = Some e /\ allowed (fst (loc t)) e = Some (fst l)
   | _ => True
   end.
 Proof. exact (handler_within_table_lemma cfg s sc t). Qed.
 
+(* ---- witnesses ------------------------------------------------------------------------------ *)
+Definition mkstep i w deps outs pr :=
+  {| s_id := i; s_when := w; s_deps := deps; s_outs := outs; s_proc := pr; s_sup := VChanged; s_thor := VChanged |}.
+Definition mkcfg steps ex pool a b c d e :=
+  {| c_steps := steps; c_exists := ex; c_pool := pool; c_cap := 65536;
+     fix_shared_pool := a; fix_atomic_acquire := b; fixed_P12 := c; fixed_P13 := d; fixed_P14 := e |}.
+Definition round_robin (cfg : config) (n : nat) : list tid := flat_map (fun _ => all_tids cfg) (seq 0 n).
+Definition steps_only (cfg : config) (n : nat) : list tid := flat_map (fun _ => map Step (step_ids cfg)) (seq 0 n).
+
+(* P16: producer 0 declares output path 1 (absent), consumer 1 has a glob matching it *)
+Definition cfg_p16 : config :=
+  mkcfg [mkstep 0 ByDeps [] [1] (Exits 0 0 0); mkstep 1 ByDeps [DGlob [1]] [] (Exits 0 0 0)] [] 2 true true true true true.
+
+Example p16_in_class : Known_glob_on_absent_output cfg_p16 = true.
+Proof. vm_compute. reflexivity. Qed.
+
+Example p16_no_edge : edges cfg_p16 = [].
+Proof. vm_compute. reflexivity. Qed.
+
+(* both commands are running at the same time although the consumer reads the producer's output *)
+Theorem glob_absent_output_refuted : ~ C10_full.
+Proof.
+  intros H.
+  pose (s := run_sched cfg_p16 (init_state cfg_p16) (steps_only cfg_p16 20)).
+  destruct (tget (thr s) 1) as [tr|] eqn:Htr; [|vm_compute in Htr; discriminate].
+  vm_compute in Htr. inversion Htr; subst tr; clear Htr.
+  edestruct (H cfg_p16 (steps_only cfg_p16 20) s
+              (mkstep 1 ByDeps [DGlob [1]] [] (Exits 0 0 0)) (mkstep 0 ByDeps [] [1] (Exits 0 0 0)) (DGlob [1]) 1)
+    as [tp [Htp [Hr _]]].
+  - vm_compute. reflexivity.
+  - vm_compute. auto.
+  - vm_compute. auto.
+  - vm_compute. auto.
+  - vm_compute. auto.
+  - vm_compute. reflexivity.
+  - vm_compute. reflexivity.
+  - vm_compute. reflexivity.
+  - vm_compute in Htp. inversion Htp; subst tp. vm_compute in Hr. discriminate.
+Qed.
+
+(* with the output present when the run starts the edge exists *)
+Example glob_present_output_edge :
+  edges (mkcfg [mkstep 0 ByDeps [] [1] (Exits 0 0 0); mkstep 1 ByDeps [DGlob [1]] [] (Exits 0 0 0)] [1] 2 true true true true true) = [(1, 0)].
+Proof. vm_compute. reflexivity. Qed.
+
+(* non-vacuity: a chain 2 -> 1 -> 0 with a failing middle step and an `always` tail, run to the end
+   by a round-robin schedule: 0 done by running, 1 broken, 2 ran (always) after both had finished *)
+Definition cfg_chain : config :=
+  mkcfg [mkstep 0 ByDeps [] [5] (Exits 0 10 0); mkstep 1 ByDeps [DPath 5] [] (Exits 1 0 0); mkstep 2 Always [DStep 1; DStep 0] [] (Exits 0 0 0)]
+        [] 1 true true true true true.
+
+Example chain_runs :
+  match run cfg_chain (round_robin cfg_chain 60) with
+  | Accepted s => (all_doneb s, deps_okb cfg_chain s,
+                   map (fun kv => (fst kv, fst (loc (snd kv)), started (proc (snd kv)))) (thr s))
+                  = (true, true, [(0, DoneByRunning, true); (1, Broken, true); (2, DoneByRunning, true)])
+  | Rejected _ => False
+  end.
+Proof. vm_compute. reflexivity. Qed.
+
+Example chain_edges : edges cfg_chain = [(1, 0); (2, 1); (2, 0)].
+Proof. vm_compute. reflexivity. Qed.
+
+(* downstream of a failed step: with `by_dependencies` on step 2 it never starts *)
+Example downstream_not_started :
+  let cfg := mkcfg [mkstep 0 ByDeps [] [] (Exits 1 0 0); mkstep 1 ByDeps [DStep 0] [] (Exits 0 0 0)] [] 2 true true true true true in
+  match run cfg (round_robin cfg 60) with
+  | Accepted s => (all_doneb s, map (fun kv => (fst (loc (snd kv)), started (proc (snd kv)))) (thr s)) = (true, [(Broken, true); (Broken, false)])
+  | Rejected _ => False
+  end.
+Proof. vm_compute. reflexivity. Qed.
+
+Example cycle_is_rejected :
+  run (mkcfg [mkstep 0 ByDeps [DStep 1] [] (Exits 0 0 0); mkstep 1 ByDeps [DPath 7] [] (Exits 0 0 0); mkstep 2 ByDeps [] [7] (Exits 0 0 0) ;
+              mkstep 3 ByDeps [DStep 0] [7] (Exits 0 0 0)] [] 2 true true true true true) [Step 0; Step 1] = Rejected Cycle.
+Proof. vm_compute. reflexivity. Qed.
+
+(* ---- the statements are pinned ------------------------------------------------------------- *)
+Check started_after_dependencies :
+  forall cfg sch s i j sc ti, run cfg sch = Accepted s ->
+  find_step (c_steps cfg) i = Some sc -> In j (deps_of cfg sc) ->
+  tget (thr s) i = Some ti -> started (proc ti) = true ->
+  exists tj, tget (thr s) j = Some tj /\ is_running (proc tj) = false /\
+             (is_done (loc tj) = true \/ (s_when sc = Always /\ is_terminal (loc tj) = true)).
+Check downstream_of_failed_never_starts :
+  forall cfg sch s i j sc, run cfg sch = Accepted s ->
+  find_step (c_steps cfg) i = Some sc -> In j (deps_of cfg sc) ->
+  is_broken (loc_of s j) = true -> s_when sc <> Always ->
+  forall sch' ti, tget (thr (run_sched cfg s sch')) i = Some ti -> proc ti = NotStarted.
+Check cyclic_rejected : forall cfg sch, acyclicb cfg = false -> exists r, run cfg sch = Rejected r.
+Check C10_outside_known_class : forall cfg, Known_glob_on_absent_output cfg = false -> C10_body cfg.
+Check glob_absent_output_refuted : ~ C10_full.
+
+Print Assumptions started_after_dependencies.
+Print Assumptions verdicts_are_final.
+Print Assumptions downstream_of_failed_never_starts.
 Print Assumptions cyclic_rejected.
+Print Assumptions accepted_no_cycle.
+Print Assumptions explicit_dependencies_are_edges.
+Print Assumptions edges_cover_declared_reads.
+Print Assumptions C10_outside_known_class.
 Print Assumptions handler_within_table.
+Print Assumptions glob_absent_output_refuted.
